@@ -5,14 +5,19 @@
 (* dump of every abstract case with Level 2's prediction for replay (B1).  *)
 (***************************************************************************)
 EXTENDS Params, Json, IOUtils
-CONSTANTS MaxLen, Syms, DumpCases, Extra3
+CONSTANTS MaxLen, Syms, DumpCases, Extra3, ImplFull
 R == INSTANCE Req
 
 FnNames == { Nm("foo"), Nm("arg1"), RawNm("match") }
 \* (Extra3: three-parameter lists over the symbols whose names interact with GENERATED names - a generated `argN` needs
 \*  both `argN` and `_argN` taken elsewhere before the second retry matters - included even when MaxLen < 3)
 Lists   == UNION { [1..n -> Syms] : n \in 0..MaxLen } \cup (IF MaxLen < 3 THEN [1..3 -> Extra3] ELSE {})
-Inputs  == { in \in [list : Lists, f : FnNames, nodeps : BOOLEAN] : ValidOriginal(in.list, in.f) }
+\* rk: what the function is: "self" a function of its own (the generated method gets a `self` receiver), "static" / "dyn" a function
+\* of an entraited impl block (`#[entrait] impl TImpl for X` / `#[entrait(ref)] impl ..`), where the macro inserts a parameter `__impl`.
+\* Impl blocks: every list up to length ImplFull, and every longer list that has a parameter called `__impl`.
+Inputs  == { in \in [list : Lists, f : FnNames, nodeps : BOOLEAN, rk : {"self", "static", "dyn"}] :
+             /\ ValidOriginal(in.list, in.f)
+             /\ (in.rk # "self" => ~in.nodeps /\ (Len(in.list) <= ImplFull \/ \E i \in 1..Len(in.list) : in.list[i] = "implname")) }
 
 \* ---- the abstract input as Level 1 sees it
 L1In(in) == [ binds  |-> [i \in 1..Len(in.list) |-> Binds(in.list[i], i, in.f)],
@@ -23,10 +28,10 @@ L1In(in) == [ binds  |-> [i \in 1..Len(in.list) |-> Binds(in.list[i], i, in.f)],
 \* the expansion compiles iff the generated signature is plain, the names are distinct and none
 \* shadows the function (patterns in body-less methods, duplicate bindings, callee shadowed).
 PredObs(in) ==
-  LET r == Final(in.list, in.f) nm == Names(r.st) dc == Decos(r.st) IN
-  IF r.panic THEN [expanded |-> FALSE, panic |-> TRUE, tkind |-> <<>>, tname |-> <<>>, tdeco |-> <<>>,
+  LET r == FinalK(in.list, in.f, in.rk) nm == Names(r.st) dc == Decos(r.st) IN
+  IF r.panic THEN [expanded |-> FALSE, panic |-> TRUE, tkind |-> <<>>, tname |-> <<>>, tdeco |-> <<>>, inserted |-> <<>>,
                    callee |-> "", selfarg |-> FALSE, callargs |-> <<>>, compiled |-> FALSE]
-  ELSE LET o == [expanded |-> TRUE, panic |-> FALSE,
+  ELSE LET o == [expanded |-> TRUE, panic |-> FALSE, inserted |-> InsertedNames(in.rk),
                  tkind |-> [i \in DOMAIN nm |-> "ident"], tname |-> nm, tdeco |-> dc,
                  callee |-> in.f.base, selfarg |-> ~in.nodeps, callargs |-> nm, compiled |-> TRUE] IN
        [o EXCEPT !.compiled = /\ R!C16_Holds("plain", L1In(in), o)
@@ -58,33 +63,40 @@ LiftInner ==
   /\ UNCHANGED <<in, k>>
 Autogenerate ==
   /\ pc = "gen" /\ k <= Len(st)
-  /\ LET r == Stage3Step(st, k, taken) IN st' = r.st /\ taken' = r.taken
+  /\ LET r == Stage3Step(st, k, taken, Len(InsertedNames(in.rk))) IN st' = r.st /\ taken' = r.taken
   /\ k' = k + 1 /\ UNCHANGED <<in, pc>>
 GenDone == pc = "gen" /\ k > Len(st) /\ pc' = "fix" /\ k' = 1 /\ UNCHANGED <<in, st, taken>>
 FixIdentConflicts ==
   /\ pc = "fix" /\ k <= Len(st)
   /\ LET r == Stage4Step(st, k, taken, in.f) IN st' = r.st /\ taken' = r.taken
   /\ k' = k + 1 /\ UNCHANGED <<in, pc>>
-Finish == pc = "fix" /\ k > Len(st) /\ pc' = "done" /\ UNCHANGED <<in, st, k, taken>>
-Next == Simplify \/ LiftInner \/ Autogenerate \/ GenDone \/ FixIdentConflicts \/ Finish
+FixDone == pc = "fix" /\ k > Len(st) /\ pc' = "fiximpl" /\ k' = 1 /\ UNCHANGED <<in, st, taken>>
+FixImplParamConflicts ==
+  /\ pc = "fiximpl" /\ k <= Len(st)
+  /\ LET r == Stage5Step(st, k, taken, in.rk) IN st' = r.st /\ taken' = r.taken
+  /\ k' = k + 1 /\ UNCHANGED <<in, pc>>
+Finish == pc = "fiximpl" /\ k > Len(st) /\ pc' = "done" /\ UNCHANGED <<in, st, k, taken>>
+Next == Simplify \/ LiftInner \/ Autogenerate \/ GenDone \/ FixIdentConflicts \/ FixDone \/ FixImplParamConflicts \/ Finish
 Spec == Init /\ [][Next]_vars
 
 \* ---- invariants
-TypeOK == pc \in {"simplify", "lift", "gen", "fix", "done"}
+TypeOK == pc \in {"simplify", "lift", "gen", "fix", "fiximpl", "done"}
 \* the step-wise machine and the functional composition agree (the dump and the traces use `Final`)
-StepwiseIsFinal == pc = "done" => st = Final(in.list, in.f).st
+StepwiseIsFinal == pc = "done" => st = FinalK(in.list, in.f, in.rk).st
 \* once every parameter is an identifier the taken-set is exactly the set of parameter names
-TakenExact == pc \in {"fix", "done"} => taken = TakenOf(st) \cup taken /\ TakenOf(st) \subseteq taken
+TakenExact == pc \in {"fix", "fiximpl", "done"} => taken = TakenOf(st) \cup taken /\ TakenOf(st) \subseteq taken
 \* the generator never hands out a taken name: identifiers stay pairwise distinct from `gen` on
-GenFresh == pc \in {"gen", "fix", "done"} =>
+GenFresh == pc \in {"gen", "fix", "fiximpl", "done"} =>
               \A i, j \in DOMAIN st : i # j /\ st[i].ident /\ st[j].ident => st[i].name.base # st[j].name.base
 \* refinement: Level 2's outcome satisfies Level 1, except on inputs in a named deviation class
 Refines == pc = "done" => (R!C16_Fail(L1In(in), PredObs(in)) = {} \/ Class(in) # "")
 \* positional, total: one name per parameter
 OneNamePerParam == pc = "done" => Len(st) = Len(in.list) /\ AllIdent(st)
+\* the parameter the macro inserts keeps its name to itself
+InsertedNameIsFree == pc = "done" /\ in.rk # "self" => \A i \in DOMAIN st : st[i].name.base # "__impl"
 
 \* ---- case dump for replay (B1)
-CaseRec(in0) == [ list |-> in0.list, f |-> in0.f, nodeps |-> in0.nodeps,
+CaseRec(in0) == [ list |-> in0.list, f |-> in0.f, nodeps |-> in0.nodeps, rk |-> in0.rk,
                   ptext |-> [i \in 1..Len(in0.list) |-> PText(in0.list[i], i, in0.f)],
                   bexpr |-> FlattenSeq([i \in 1..Len(in0.list) |-> BExpr(in0.list[i], i, in0.f)]),
                   vexpr |-> [i \in 1..Len(in0.list) |-> VExpr(in0.list[i], LeafStart(in0.list, i))],
